@@ -54,7 +54,9 @@ Definition cat_union : N := 10.            (* Invalid property in union (UnionPr
 
 Inductive op :=
 | OFail (cat : N)                                   (* intrinsic failure *)
-| ONeed (k : ekind) (t : ref) (rs : list root)      (* _property_from_ref: target must be in classes_by_reference; add_dependencies(t, rs) *)
+| ONeed (k : ekind) (t : ref) (rs : list root) (nm : N) (recur : bool)
+     (* _property_from_ref: target must be in classes_by_reference; add_dependencies(t, rs); nm: the name the copy gets
+        (wrapper); recur: the $ref text ends with /<class being processed> (then _process_models calls a failure recursive) *)
 | OAllOf (t : ref) (rs : list root) (recur : bool)  (* allOf $ref: target must be a processed model; add_dependencies(t, rs) *)
 | ODep (r : ref) (c : cls)                          (* ModelProperty.build (processed inline): add_dependencies(r, {c}) *)
 | OMintModel (c : cls) (q : option nat)             (* duplicate check, classes_by_name[c], models_to_process += entry q *)
@@ -67,7 +69,7 @@ Record node := mkN { n_ref : ref; n_isref : bool; n_top : top; n_create : list i
 Definition graph := list node.
 
 Inductive payload := PModel (e : entry) | POther.
-Record qitem := mkQ { q_owner : option ref; q_entry : entry }.
+Record qitem := mkQ { q_owner : option ref; q_name : N; q_entry : entry }.
 Record st := mkSt {
   s_cbr : list (ref * payload);      (* classes_by_reference *)
   s_cbn : list (cls * cinfo);        (* classes_by_name *)
@@ -93,7 +95,7 @@ Definition wrap_owner (cx : ctx) : option ref := match c_top cx with TWrap _ => 
 Definition push_entry (cx : ctx) (q : option nat) : list qitem :=
   match q with
   | Some k => match nth_error (c_ents cx) k with
-              | Some e => [mkQ (match c_top cx with TModel k' => if Nat.eqb k k' then Some (c_ref cx) else None | _ => None end) e]
+              | Some e => [mkQ (match c_top cx with TModel k' => if Nat.eqb k k' then Some (c_ref cx) else None | _ => None end) (e_name e) e]
               | None => []
               end
   | None => []
@@ -102,11 +104,11 @@ Definition push_entry (cx : ctx) (q : option nat) : list qitem :=
 Definition exec_op (cx : ctx) (s : st) (o : op) : st * option N :=
   match o with
   | OFail c => (s, Some c)
-  | ONeed k t rs =>
+  | ONeed k t rs nm recur =>
       match lookup (s_cbr s) t with
-      | None => (s, Some cat_ref_missing)
+      | None => (s, Some (if recur then cat_recursive else cat_ref_missing))
       | Some pl =>
-          let qs := match k, pl with EWrapper, PModel e => [mkQ (wrap_owner cx) e] | _, _ => [] end in
+          let qs := match k, pl with EWrapper, PModel e => [mkQ (wrap_owner cx) nm e] | _, _ => [] end in
           (mkSt (s_cbr s) (s_cbn s) (add_deps (s_deps s) t rs) (s_queue s ++ qs) (s_done s), None)
       end
   | OAllOf t rs recur =>
@@ -242,7 +244,7 @@ Fixpoint model_errors (D : list (ref * root)) (mes : list (qitem * N)) (cbr : li
       match remove_roots D (e_roots (q_entry q)) cbr cbn with
       | (cbr1, cbn1, acc) =>
           match model_errors D rest cbr1 cbn1 with
-          | (cbr2, cbn2, es) => (cbr2, cbn2, mkErr false (e_name (q_entry q)) c acc :: es)
+          | (cbr2, cbn2, es) => (cbr2, cbn2, mkErr false (q_name q) c acc :: es)
           end
       end
   end.
@@ -292,7 +294,7 @@ Definition graph_case (g : graph) (cbr : list N) (cbn : list N) (errs : list (bo
 (* ---------------------------------------------------------------- edges and guards *)
 Definition op_edge (o : op) : list (ekind * ref * list root) :=
   match o with
-  | ONeed k t rs => [(k, t, rs)]
+  | ONeed k t rs _ _ => [(k, t, rs)]
   | OAllOf t rs _ => [(EAllOf, t, rs)]
   | _ => []
   end.
